@@ -725,13 +725,13 @@ def fills(ctx):
         sid = sp.shape_id
         again = lambda: [x for x in slide.shapes if x.shape_id == sid][0]  # noqa: E731  (a NEW shape proxy each time)
         if kind == "shape":
-            return sp._element.spPr, lambda: again().fill
+            return sp._element.spPr, lambda: again().fill, None
         if kind == "line":
             sp.line.width = 12700
-            return sp._element.spPr.find(q("ln")), lambda: again().line.fill
+            return sp._element.spPr.find(q("ln")), lambda: again().line.fill, lambda: again().line
         if kind == "font":
             r = sp.text_frame.paragraphs[0].add_run(); r.text = "t"; r.font.bold = True
-            return r._r.rPr, lambda: again().text_frame.paragraphs[0].runs[0].font.fill
+            return r._r.rPr, lambda: again().text_frame.paragraphs[0].runs[0].font.fill, lambda: again().text_frame.paragraphs[0].runs[0].font
         if kind == "series":
             from pptx.chart.data import CategoryChartData
             from pptx.enum.chart import XL_CHART_TYPE
@@ -741,11 +741,11 @@ def fills(ctx):
             gf.chart.plots[0].series[0].format.fill.solid()
             ser = gf.chart.plots[0].series[0]._element
             return ser.find("{http://schemas.openxmlformats.org/drawingml/2006/chart}spPr"), \
-                lambda: [x for x in slide.shapes if x.shape_id == cid][0].chart.plots[0].series[0].format.fill
+                lambda: [x for x in slide.shapes if x.shape_id == cid][0].chart.plots[0].series[0].format.fill, None
         gf = slide.shapes.add_table(1, 1, 0, 0, 99, 99)
         gid = gf.shape_id
         gf.table.cell(0, 0).margin_left = 5
-        return gf.table.cell(0, 0)._tc.tcPr, lambda: [x for x in slide.shapes if x.shape_id == gid][0].table.cell(0, 0).fill
+        return gf.table.cell(0, 0)._tc.tcPr, lambda: [x for x in slide.shapes if x.shape_id == gid][0].table.cell(0, 0).fill, None
 
     def clr_xml():
         k = rng.choice([1, 1, 4, 4, 0, 2, 3, 5])
@@ -842,9 +842,12 @@ def fills(ctx):
 
     lines, impl, metas = [], [], []
     n = 80 if ctx.quick else 1200
+    SCRIPTS = [("c:r66051", "bg", "c:r263430"), ("c:r66051", "gr", "c:r263430"), ("c:r66051", "pa", "c:r263430")] * 2
     for hi in range(n):
         kind = rng.choice(["shape", "shape", "line", "font", "cell", "series"])
-        parent, fresh = site(kind)
+        if hi < len(SCRIPTS):
+            kind = "line" if hi < 3 else "font"
+        parent, fresh, owner = site(kind)
         fresh().solid()                       # the library puts the fill element where the schema has it ...
         sx = start_xml(kind)
         old = fill_elm(parent)
@@ -854,12 +857,28 @@ def fills(ctx):
             parent.replace(old, parse_xml('<a:w xmlns:a="%s">%s</a:w>' % (A, sx))[0])   # ... and the start state takes its place
         start = dump(parent)
         held = fresh()
+        # the owner of the fill (a LineFormat, a Font) has a `.color` shortcut of its own: one owner is held for the whole
+        # history - its FillFormat is its own, a third proxy of the same element
+        held_owner = owner() if owner else None
         outs = ["start|%s|%s" % (start, readers(held))]
         ops = []
-        for _ in range(rng.randint(1, 9)):
+        # in every run: the owner's shortcut, a type change, the shortcut again - through ONE owner object
+        scripted = list(SCRIPTS[hi]) if hi < len(SCRIPTS) else []
+        for _ in range(len(scripted) or rng.randint(1, 9)):
             r = rng.random()
             who = held if rng.random() < 0.5 else fresh()
-            if r < 0.3:
+            if scripted:
+                tok = scripted.pop(0)
+                if tok.startswith("c:"):
+                    v = int(tok[3:])
+                    act = lambda f: setattr(held_owner.color, "rgb", RGBColor(v >> 16, (v >> 8) & 255, v & 255))  # noqa: E731
+                else:
+                    act = {"bg": lambda f: f.background(), "gr": lambda f: f.gradient(), "pa": lambda f: f.patterned()}[tok]
+            elif owner and rng.random() < 0.2:
+                ctok, cact = colour_op()
+                ow = held_owner if rng.random() < 0.6 else owner()
+                tok, act = "c:" + ctok, lambda f, ow=ow, cact=cact: cact(ow.color)
+            elif r < 0.3:
                 tok, act = rng.choice([("bg", lambda f: f.background()), ("so", lambda f: f.solid()), ("gr", lambda f: f.gradient()), ("pa", lambda f: f.patterned())])
             elif r < 0.4:
                 pv = rng.choice([None] + list(range(len(patterns))))
@@ -895,6 +914,9 @@ def fills(ctx):
                 res = "A"
                 ctx.fail("fill:undocumented-exception:" + tok[:2], f"{kind} fill {dump(parent)}: call {tok} raised AttributeError ({e}); the documented refusals are TypeError "
                          f"(the fill kind does not have it) and ValueError", {"site": kind, "start": start, "ops": list(ops)})
+            if tok.startswith("c:") and res == "ok" and not dump(parent).startswith("S/"):
+                ctx.fail("fill:color-shortcut-lost", f"{kind}: after {ops} the assignment through .color was accepted, but the fill is {dump(parent)}: "
+                         f"'accessing this property causes the fill type to be set to SOLID'", {"site": kind, "start": start, "ops": list(ops)})
             a, b = readers(held), readers(fresh())
             if a != b:
                 ctx.fail("fill:stale-proxy", f"{kind} fill {dump(parent)} after {ops}: a FillFormat obtained before reads (type pattern angle stops) = {a}, "
